@@ -7,7 +7,7 @@ CONSTANTS
  SessT = 2
  RebT = 2
  DefT = 30
- KeepT = {FALSE}
+ KeepT = {TRUE}
  MaxClock = 4
  MaxGen = 4
  FixSubChange = FALSE
